@@ -88,7 +88,7 @@ fn main() {
     }
 
     ctx.set_rule(
-        "E-ENUM. Octet alphabet O = {00 - . * 0 A Z [ \\ _ a z 7f 80 ff}; labels = all strings over O of length 1..2 plus fill \
+        "E-ENUM. Octet alphabet O = {00 - . * 0 A Z [ \\ _ a z 7f 80 ff} (thorough) / {00 . @ A Z [ ` a z { 80 ff} (quick); labels = all strings over O of length 1..2 plus fill \
          labels of 62/63 octets; U1 = all absolute names of 0..2 labels over those labels; U2 = all names of 0..2 labels over \
          the 9-octet sub-alphabet {00 . A Z [ a z 80 ff}, absolute AND relative; thorough adds U3 = 0..3 labels over {00 A [ a ff}. \
          pair family: all ordered pairs of labels (Label eq/hash/cmp); ALL ordered pairs of U1 (Name eq/hash/cmp; thorough: all clauses), of U2 (all clauses incl. \
@@ -112,7 +112,7 @@ fn main() {
     ctx.assume("relative vs absolute names: RFC 4034 orders absolute names only; across the divide only a total order consistent with equality is demanded");
 
     // ------------------------------------------------------------------ pair family
-    let full_labels = labels_over(&OCTETS, true);
+    let full_labels = if thorough { labels_over(&OCTETS, true) } else { labels_over(&QUICK12, true) };
     pairs::run_label_pairs(&ctx, &full_labels);
     let u1 = pairs::universe(&ctx, fq(names_over(&full_labels, 2)));
     pairs::run_pairs(&ctx, &u1, thorough, "u1_absolute_full_alphabet");
